@@ -17,6 +17,12 @@ def make_sm_executor(chk, cfg=None, cuts=('persist', 'appset')):
         smodels.cut_report_check_interval(ex)
     if 'puc' in cuts:
         smodels.cut_perform_update_check(ex)
+    if 'sut' in cuts:
+        smodels.cut_start_update_check(ex)
+    if 'ping' in cuts:
+        smodels.cut_ping(ex)
+    if 'select' in cuts:
+        smodels.install_select(ex)
     if 'first_seen' in cuts:
         smodels.cut_record_first_seen(ex)
     return ex
